@@ -69,7 +69,8 @@ func VerifC16Middleware() {
 		} else if st == 2 {
 			h.Bind(i, i, i)
 		}
-		hasChain[i] = !full || vh.ConcretizeInt(vh.Int(vh.Sprintf("has_chain_id_%d", i)), 0, 1) == 1
+		// bound all_chain_ids=0 (quick tier): only consumer 0's chain id may be missing
+		hasChain[i] = !full || (i == 1 && vh.Bound("all_chain_ids", 0) == 0) || vh.ConcretizeInt(vh.Int(vh.Sprintf("has_chain_id_%d", i)), 0, 1) == 1
 		if hasChain[i] {
 			h.K.SetConsumerChainId(h.Ctx, c, vh.Sprintf("chain-%d", i))
 		}
